@@ -37,6 +37,15 @@ PROPS = {
         units=['rangeu'],
         not_covered='default Stream::{len,force,pythonic_slice,reversed}, lazy adaptors, combinatorial streams, infinite streams',
     ),
+    'C16': dict(
+        units=['display'],
+        not_covered='parse_decimal_exactly/parse_rational_exactly, int(str(n)), str_radix/int_radix, hex/base64/utf8/gzip/json codecs, chr/ord, repr',
+    ),
+    'C14': dict(
+        units=['index', 'nint', 'nnum', 'nnumcmp', 'builtins', 'istype', 'rangeu'],
+        not_covered='every function not under contract (the other ~340 builtins, evaluate, assign_all, set_index, streams other than '
+                    'Range/WrappedVec, the parser); try/catch containment and "interpreter still usable" are whole-program claims',
+    ),
     'C12': dict(
         units=['istype'],
         not_covered='pattern matching, switch, destructuring, annotation enforcement on assignment paths, satisfying types',
@@ -67,6 +76,13 @@ TEXT = {
             'Python\'s index/clamp/slice functions and cannot overflow or panic.'),
     'C11': ('Verus proves for integer ranges with any step sign and any magnitude that the emptiness test, next/peek and the '
             'closed-form len() agree with the iteration that next() performs.'),
+    'C16': ('Verus proves that the Display/LowerHex/UpperHex/Binary/Octal impls of NInt (and the integer arm of NNum) write the '
+            'sign-magnitude rendering of the abstract value, so the text cannot depend on the representation (assuming std\'s and '
+            'num-bigint\'s formatting behaviour). Only this clause of C16 is decided.'),
+    'C14': ('For every function under contract in the other units Verus proves panic-freedom for all inputs satisfying the '
+            'stated preconditions: no arithmetic overflow, no division by zero, no out-of-range cast or index, no reachable '
+            'panic!/todo!/unreachable!/expect, and every precondition that encodes a dependency panic (BigInt division by '
+            'zero, reciprocal of zero, num-rational pow) is discharged at the builtin closures that call it.'),
     'C12': ('Verus proves the type-predicate kernel: is_type(type_of(v), v) and is_type(anything, v) hold for every value, '
             'number accepts every numeric level, and builtin types classify by constructor.'),
 }
